@@ -55,6 +55,13 @@ def step (_ : Unit) : List String → Unit × List String
     if !(isNat sec && isNat nsec && isNat tmo && isInt rc) then ((), ["bad-op"]) else
     let d := deadline (hrtime (nat! sec) (nat! nsec)) (nat! tmo)
     ((), [s!"deadline {d.1} {d.2} clk 1 condclk 1 {showOut (timedwaitMap (int! rc))}"])
+  | ["initattr", what] =>
+    let sh (o : Option Nat) : String := match o with | some n => toString n | none => "-1"
+    match what with
+    | "rwlock" => ((), [s!"rwlock-kind {sh rwlockInitKind}"])
+    | "mutex" => ((), [s!"mutex-type {sh mutexInitType}"])
+    | "rmutex" => ((), [s!"mutex-type {sh rmutexInitType}"])
+    | _ => ((), ["bad-op"])
   | ["barrier", rc] =>
     if !isInt rc then ((), ["bad-op"]) else ((), [showOut (barrierWaitMap (int! rc))])
   | ["must", name, rc] =>
